@@ -779,7 +779,9 @@ class Engine:
         env = {}
         for p in params:
             if p in types:
-                env[p] = self.make_value(p, types[p])
+                # **kwargs is a dictionary built by the call itself: the function may change it freely
+                is_kw = fdef.args.kwarg is not None and fdef.args.kwarg.arg == p
+                env[p] = self.make_value(p, types[p], fresh=True) if is_kw else self.make_value(p, types[p])
             else:
                 d = self._default_of(fdef, p)
                 if d is _NODEFAULT:
@@ -813,6 +815,9 @@ class Engine:
         outcome = None
         try:
             self.exec_block(fdef.body)
+            # falling off the end is `return None`: the before_return hook fires here too
+            self.st.env['__return__'] = None
+            self.run_hook(('before_return',), fdef)
             outcome = ('return', None)
         except ReturnSig as r:
             outcome = ('return', r.value)
@@ -1384,6 +1389,12 @@ class Engine:
         if isinstance(op, ast.Sub):
             return Z(to_int(a) - to_int(b), INT) if both_int else Z(to_real(a) - to_real(b), REAL)
         if isinstance(op, ast.Mult):
+            if not both_int:
+                ra, rb = to_real(a), to_real(b)
+                for x_, d_ in ((ra, rb), (rb, ra)):
+                    # (x / d) * d == x for d != 0 (exact over the reals; the real-arithmetic idealisation of a float product)
+                    if z3.is_div(x_) and x_.arg(1).eq(d_) and self.decide(d_ != 0) is True:
+                        return Z(x_.arg(0), REAL)
             return Z(to_int(a) * to_int(b), INT) if both_int else Z(to_real(a) * to_real(b), REAL)
         if isinstance(op, ast.Div):
             den = to_real(b)
